@@ -12,7 +12,8 @@ def step (line : String) : String :=
   | "R" :: _ => CpModel.WsgiBoundaryProto.step line
   | toks =>
     -- `genx=<page>:<class>,…` (C01 fault plans): the class of what a *streamed* generator raises mid-stream; the
-    -- model has one answer for every `Exception` subclass there, so the token is dropped
-    CpModel.PipelineProto.step (" ".intercalate (toks.filter fun t => !t.startsWith "genx="))
+    -- model has one answer for every `Exception` subclass there, so the token is dropped; `xcls=<class>`: the builtin
+    -- class the outcome `ex` raises at every site (ValueError, KeyError, …): one answer as well
+    CpModel.PipelineProto.step (" ".intercalate (toks.filter fun t => !(t.startsWith "genx=" || t.startsWith "xcls=")))
 
 def main : IO Unit := CpModel.Proto.runDriver step
